@@ -61,6 +61,7 @@ Variable clean : fam -> AS.
 Variable Full : fam -> AS -> Prop.     (* the states a fault-free set-up ends in *)
 Variable AInv : fam -> AS -> Prop.
 Variable nd : fam -> AS -> bool.
+Variable Exc : cmd -> bool.            (* tear-down commands whose own failure may break AInv (finding F41) *)
 Variables arS arR : faultfn -> fam -> nat -> AS -> bool * nat * AS * list cmd.
 
 Definition on (f : fam) : bool := fc_on (fcfg c f).
@@ -83,8 +84,11 @@ Hypothesis EXT_R : ext_hyp arR.
 Hypothesis WIN_S : win_hyp arS.
 Hypothesis WIN_R : win_hyp arR.
 Hypothesis P_inv_clean : forall f, AInv f (clean f).
-Hypothesis P_inv_S : forall F f n a ok n' a' tr, AInv f a -> arS F f n a = (ok, n', a', tr) -> AInv f a'.
-Hypothesis P_inv_R : forall F f n a ok n' a' tr, AInv f a -> arR F f n a = (ok, n', a', tr) -> AInv f a'.
+Hypothesis P_inv_S : forall F f n a ok n' a' tr,
+  AInv f a -> (a = clean f \/ forall i, F i = false) -> arS F f n a = (ok, n', a', tr) -> AInv f a'.
+Hypothesis P_inv_R : forall k f n a ok n' a' tr,
+  AInv f a -> arR (fault_at k) f n a = (ok, n', a', tr) ->
+  AInv f a' \/ (n <= k /\ exists x, nth_error tr (k - n) = Some x /\ Exc x = true).
 Hypothesis P_R_nf : forall f n a ok n' a' tr,
   on f = true -> AInv f a -> arR no_faults f n a = (ok, n', a', tr) -> a' = clean f.
 Hypothesis P_S_nf : forall f n a ok n' a' tr,
@@ -195,14 +199,15 @@ Qed.
 
 (* ---------------- the abstract session ---------------- *)
 Lemma aph_inv_S F f n a ok n' a' tr :
-  AInv f a -> aph (on f) (arS F f) n a = (ok, n', a', tr) -> AInv f a'.
+  AInv f a -> (a = clean f \/ forall i, F i = false) -> aph (on f) (arS F f) n a = (ok, n', a', tr) -> AInv f a'.
 Proof.
-  unfold aph. intros Hi H. destruct (on f); [eapply P_inv_S; eassumption|]. injection H as <- <- <- <-. exact Hi.
+  unfold aph. intros Hi Hc H. destruct (on f); [eapply P_inv_S; eassumption|]. injection H as <- <- <- <-. exact Hi.
 Qed.
-Lemma aph_inv_R F f n a ok n' a' tr :
-  AInv f a -> aph (on f) (arR F f) n a = (ok, n', a', tr) -> AInv f a'.
+Lemma aph_inv_R k f n a ok n' a' tr :
+  AInv f a -> aph (on f) (arR (fault_at k) f) n a = (ok, n', a', tr) ->
+  AInv f a' \/ (n <= k /\ exists x, nth_error tr (k - n) = Some x /\ Exc x = true).
 Proof.
-  unfold aph. intros Hi H. destruct (on f); [eapply P_inv_R; eassumption|]. injection H as <- <- <- <-. exact Hi.
+  unfold aph. intros Hi H. destruct (on f); [eapply P_inv_R; eassumption|]. injection H as <- <- <- <-. left. exact Hi.
 Qed.
 Lemma aph_win ar F f n a ok n' a' tr :
   win_hyp ar -> aph (on f) (ar F f) n a = (ok, n', a', tr) -> n <= n' /\ length tr = n' - n.
@@ -230,15 +235,18 @@ Proof.
 Qed.
 
 Lemma asetup_inv F a6 a4 ok4 n2 b6 b4 t12 :
-  AInv V6 a6 -> AInv V4 a4 -> asetup F a6 a4 = (ok4, n2, b6, b4, t12) ->
+  AInv V6 a6 -> AInv V4 a4 -> ((a6 = clean V6 /\ a4 = clean V4) \/ forall i, F i = false) ->
+  asetup F a6 a4 = (ok4, n2, b6, b4, t12) ->
   AInv V6 b6 /\ AInv V4 b4 /\ length t12 = n2.
 Proof.
-  intros I6 I4. unfold asetup.
+  intros I6 I4 Hc. unfold asetup.
+  assert (Hc6 : a6 = clean V6 \/ forall i, F i = false) by (destruct Hc as [[E _]|E]; [left | right]; exact E).
+  assert (Hc4 : a4 = clean V4 \/ forall i, F i = false) by (destruct Hc as [[_ E]|E]; [left | right]; exact E).
   destruct (aph (on V6) (arS F V6) 0 a6) as [[[ok6 n1] x6] t1] eqn:A1.
-  pose proof (aph_inv_S _ _ _ _ _ _ _ _ I6 A1) as J6. pose proof (aph_win _ _ _ _ _ _ _ _ _ WIN_S A1) as [W1 L1].
+  pose proof (aph_inv_S _ _ _ _ _ _ _ _ I6 Hc6 A1) as J6. pose proof (aph_win _ _ _ _ _ _ _ _ _ WIN_S A1) as [W1 L1].
   destruct ok6.
   - destruct (aph (on V4) (arS F V4) n1 a4) as [[[ok n2'] x4] t2] eqn:A2.
-    pose proof (aph_inv_S _ _ _ _ _ _ _ _ I4 A2) as J4. pose proof (aph_win _ _ _ _ _ _ _ _ _ WIN_S A2) as [W2 L2].
+    pose proof (aph_inv_S _ _ _ _ _ _ _ _ I4 Hc4 A2) as J4. pose proof (aph_win _ _ _ _ _ _ _ _ _ WIN_S A2) as [W2 L2].
     intros [= <- <- <- <- <-]. split; [exact J6|]. split; [exact J4|]. rewrite app_length. lia.
   - intros [= <- <- <- <- <-]. split; [exact J6|]. split; [exact I4|]. rewrite app_length. cbn. lia.
 Qed.
@@ -262,16 +270,22 @@ Proof.
     destruct (aph_S_nf _ _ _ _ _ _ _ _ I6 A1) as [X _]; [intros i Hi; apply HF; lia|]. discriminate.
 Qed.
 
-Lemma arest_inv F n2 b6 b4 n4 d6 d4 t34 :
-  AInv V6 b6 -> AInv V4 b4 -> arest F n2 b6 b4 = (n4, d6, d4, t34) ->
-  AInv V6 d6 /\ AInv V4 d4 /\ n2 <= n4.
+Lemma arest_inv k n2 b6 b4 n4 d6 d4 t34 :
+  AInv V6 b6 -> AInv V4 b4 -> arest (fault_at k) n2 b6 b4 = (n4, d6, d4, t34) ->
+  (AInv V6 d6 /\ AInv V4 d4) \/
+  (n2 <= k /\ exists x, nth_error t34 (k - n2) = Some x /\ Exc x = true).
 Proof.
   intros I6 I4. unfold arest.
-  destruct (aph (on V6) (arR F V6) n2 b6) as [[[ok7 n3] x6] t3] eqn:A3.
-  destruct (aph (on V4) (arR F V4) n3 b4) as [[[ok8 n4'] x4] t4] eqn:A4.
-  pose proof (aph_win _ _ _ _ _ _ _ _ _ WIN_R A3) as [W3 _]. pose proof (aph_win _ _ _ _ _ _ _ _ _ WIN_R A4) as [W4 _].
+  destruct (aph (on V6) (arR (fault_at k) V6) n2 b6) as [[[ok7 n3] x6] t3] eqn:A3.
+  destruct (aph (on V4) (arR (fault_at k) V4) n3 b4) as [[[ok8 n4'] x4] t4] eqn:A4.
+  pose proof (aph_win _ _ _ _ _ _ _ _ _ WIN_R A3) as [W3 L3]. pose proof (aph_win _ _ _ _ _ _ _ _ _ WIN_R A4) as [W4 L4].
   intros [= <- <- <- <-].
-  split; [eapply aph_inv_R; eassumption|]. split; [eapply aph_inv_R; eassumption | lia].
+  destruct (aph_inv_R _ _ _ _ _ _ _ _ I6 A3) as [J6|(Hk & x & Hx & Ex)].
+  - destruct (aph_inv_R _ _ _ _ _ _ _ _ I4 A4) as [J4|(Hk & x & Hx & Ex)]; [left; split; assumption|].
+    right. split; [lia|]. exists x. split; [|exact Ex].
+    rewrite nth_error_app2 by lia. rewrite L3. replace (k - n2 - (n3 - n2)) with (k - n3) by lia. exact Hx.
+  - right. split; [exact Hk|]. exists x. split; [|exact Ex].
+    rewrite nth_error_app1; [exact Hx|]. apply nth_error_Some. rewrite Hx. discriminate.
 Qed.
 
 Lemma arest_nf F n2 b6 b4 n4 d6 d4 t34 :
@@ -324,9 +338,12 @@ Proof. intros [H6 H4]. apply FIN. intros [|]; assumption. Qed.
 
 (* ---------------- every exit path ---------------- *)
 Theorem all_exits s0 k cut :
-  St s0 (clean V6) (clean V4) -> sess_ok c s0 k cut = true.
+  St s0 (clean V6) (clean V4) ->
+  (let r := session c cut (fault_at k) s0 in
+   Nat.leb (r_fin_at r) k && match nth_cmd k (r_events r) with Some x => Exc x | None => false end = false) ->
+  sess_ok c s0 k cut = true.
 Proof.
-  intro H0. unfold sess_ok. destruct (Nat.ltb cut (c_nlines c)) eqn:Lt.
+  intros H0 Hexc. cbv zeta in Hexc. unfold sess_ok. destruct (Nat.ltb cut (c_nlines c)) eqn:Lt.
   - apply Nat.ltb_lt in Lt. destruct (no_command_before_go c cut (fault_at k) s0 Lt) as (E1 & E2 & _).
     rewrite E1, E2, kstate_eqb_refl. reflexivity.
   - apply Nat.ltb_ge in Lt.
@@ -334,8 +351,8 @@ Proof.
     destruct (asetup (fault_at k) (clean V6) (clean V4)) as [[[[ok4 n2] b6] b4] t12] eqn:AS1.
     destruct (arest (fault_at k) n2 b6 b4) as [[[n4 d6] d4] t34] eqn:AR1.
     destruct S1 as (St1 & Nc & Nf & Cm & Ms & M6 & M4 & Mh).
-    destruct (asetup_inv _ _ _ _ _ _ _ _ (P_inv_clean V6) (P_inv_clean V4) AS1) as (I6 & I4 & L12).
-    destruct (arest_inv _ _ _ _ _ _ _ _ I6 I4 AR1) as (J6 & J4 & Hn).
+    destruct (asetup_inv _ _ _ _ _ _ _ _ (P_inv_clean V6) (P_inv_clean V4) (or_introl (conj eq_refl eq_refl)) AS1)
+      as (I6 & I4 & L12).
     pose proof (session_foreign c cut (fault_at k) s0 Hnpf Hwfc) as [_ Er].
     rewrite Nc, Nf.
     destruct (Nat.ltb k n2 || Nat.leb n4 k) eqn:B.
@@ -351,6 +368,13 @@ Proof.
       destruct (asetup_nf _ _ _ _ _ _ _ _ (P_inv_clean V6) (P_inv_clean V4) AS1) as (Ok & F6 & F4).
       { intros i Hi. apply fault_at_false. lia. }
       rewrite Ok in *. rewrite M6, M4, Ms. rewrite !orb_negb_l. cbn [andb negb orb].
+      (* the invariant survives the faulted tear-down unless the failing command is in the excluded class *)
+      assert (JJ : AInv V6 d6 /\ AInv V4 d4).
+      { destruct (arest_inv _ _ _ _ _ _ _ _ I6 I4 AR1) as [JJ|(Hk & x & Hx & Ex)]; [exact JJ|].
+        exfalso. rewrite Nf in Hexc. apply Nat.leb_le in B1. rewrite B1 in Hexc. cbn [andb] in Hexc.
+        rewrite nth_cmd_cmds_of, Cm in Hexc. apply Nat.leb_le in B1.
+        rewrite nth_error_app2 in Hexc by lia. rewrite L12, Hx, Ex in Hexc. discriminate. }
+      destruct JJ as [J6 J4].
       (* (i) hosts *)
       assert (Eh : Nat.leb cut (c_nlines c) ||
                    match c_tail c with true :: _ => has_mark MHosts (r_events (session c cut (fault_at k) s0)) | _ => true end = true).
@@ -373,7 +397,7 @@ Proof.
       destruct (asetup no_faults d6 d4) as [[[[ok4' n2'] b6'] b4'] t12'] eqn:AS2.
       destruct (arest no_faults n2' b6' b4') as [[[n4' e6] e4] t34'] eqn:AR2.
       destruct S2 as (St2 & _ & _ & _ & Ms2 & _).
-      destruct (asetup_inv _ _ _ _ _ _ _ _ J6 J4 AS2) as (K6 & K4 & _).
+      destruct (asetup_inv _ _ _ _ _ _ _ _ J6 J4 (or_intror (fun _ => eq_refl)) AS2) as (K6 & K4 & _).
       destruct (asetup_nf _ _ _ _ _ _ _ _ J6 J4 AS2) as (Ok2 & _ & _); [intros; reflexivity|].
       destruct (arest_nf _ _ _ _ _ _ _ _ K6 K4 AR2) as [C6 C4]; [intros; reflexivity|].
       rewrite Ms2, Ok2. cbn [andb]. apply kstate_eqb_eq.
